@@ -540,7 +540,7 @@ func Run(r *hx.Run, replay []hx.Case) {
 	thorough := r.Tier == "thorough"
 	scale := 1
 	if thorough {
-		scale = 12
+		scale = 25
 	}
 	// 1. targeted witnesses (string entry point and reader entry point)
 	for _, w := range witnesses() {
